@@ -41,6 +41,12 @@ def main():
     if ONLY_MISSING and os.path.exists(fp):
         out = json.load(open(fp))
         jobs = {k: v for k, v in jobs.items() if "%s.%s" % (v[0], v[1]) not in out}
+    only = [a.split("=", 1)[1] for a in sys.argv if a.startswith("--only=")]
+    if only and os.path.exists(fp):
+        out = json.load(open(fp))
+        jobs = {k: v for k, v in jobs.items() if "%s.%s" % (v[0], v[1]) in only}
+        for k in only:
+            out.pop(k, None)
     with ProcessPoolExecutor(max_workers=12) as pool:
         for module, func, kw, st, seen in pool.map(one, list(jobs.values())):
             print("%-12s %-36s %-14s %-10s %d opaque" % (module, func, kw, st, len(seen)), flush=True)
